@@ -38,6 +38,7 @@ type RCase struct {
 	PerTuple []int      `json:"perTuple"` // records per tuple in generation 1
 	Again    []int      `json:"again"`    // generation 2, after start-up: one more record for Tuples[i] (index >= len(Tuples): a tuple not seen before)
 	Fresh    [][]byte   `json:"fresh"`    // the tuple used for indexes >= len(Tuples)
+	Foreign  bool       `json:"foreign,omitempty"` // before generation 2 the buffer roots get entries that are no queues (files, directories without / with an empty / unreadable .id, a dangling link)
 }
 
 // tooLongForDir: the queue directory of a key set is named after its (sanitised) joined ID plus '.' and 8 hash
@@ -406,6 +407,24 @@ func runRestart(c RCase) vh.Result {
 		}
 	}
 
+	// ---- entries in the buffer roots that are no queues of this agent: they must neither crash the start-up scan nor keep
+	// it from reattaching the real queues
+	if c.Foreign {
+		for o := 0; o < c.Outputs; o++ {
+			oroot := filepath.Join(root, fmt.Sprintf("out%d", o))
+			_ = os.MkdirAll(oroot, 0o755)
+			_ = os.WriteFile(filepath.Join(oroot, "0-stray-file.txt"), []byte("not a queue"), 0o644)
+			_ = os.MkdirAll(filepath.Join(oroot, "0-dir-without-id"), 0o755)
+			_ = os.WriteFile(filepath.Join(oroot, "0-dir-without-id", "note.txt"), []byte("x"), 0o644)
+			_ = os.MkdirAll(filepath.Join(oroot, "1-dir-with-empty-id"), 0o755)
+			_ = os.WriteFile(filepath.Join(oroot, "1-dir-with-empty-id", ".id"), nil, 0o644)
+			_ = os.Symlink(filepath.Join(oroot, "no-such-target"), filepath.Join(oroot, "2-dangling-link"))
+			_ = os.MkdirAll(filepath.Join(oroot, "zz-unreadable-id"), 0o755)
+			_ = os.MkdirAll(filepath.Join(oroot, "zz-unreadable-id", ".id"), 0o755) // ".id" is a directory: reading it fails
+		}
+		res.Classes = append(res.Classes, "foreign-entries-in-the-buffer-root")
+	}
+
 	// ---- generation 2: start on the same root, no input
 	ilog := &instLog{}
 	ld2, err := agentrun.NewLoaderFromConfigFile(confPath, "c06r2_")
@@ -619,6 +638,7 @@ func genRestart(t *rapid.T) RCase {
 	c := RCase{NKeys: rapid.IntRange(1, 3).Draw(t, "nkeys")}
 	c.Template = rapid.SampledFrom(templates[c.NKeys]).Draw(t, "tmpl")
 	c.Umask = rapid.SampledFrom([]int{0o022, 0o022, 0o027, 0o077, 0o002, 0o007}).Draw(t, "umask")
+	c.Foreign = rapid.IntRange(0, 2).Draw(t, "foreign") == 0
 	c.Outputs = rapid.SampledFrom([]int{1, 2, 2}).Draw(t, "outputs")
 	c.Asym = c.Outputs == 2 && rapid.Bool().Draw(t, "asym")
 	nt := rapid.IntRange(1, 5).Draw(t, "ntuples")
@@ -697,6 +717,6 @@ func enumRestart(yield func(RCase) bool) {
 func TestC06Restart(t *testing.T) {
 	vh.Run(t, vh.Spec[RCase]{
 		Name: "reattach", Gen: genRestart, Run: runRestart, Quick: 150, Thorough: 3000, Enum: enumRestart, EnumSharded: true,
-		Rule: "two generations of the real agent core (run.Loader, obykeyset.Config.StartOrchestrator, real pipelines and hybrid buffers, 1-2 outputs) on one buffer root: generation 1 receives records of 1-5 key tuples (alphabet incl. '', separators, NUL, newline, invalid UTF-8; arbitrary bytes) with stalled consumers under umask 022/027/077/002/007, generation 2 starts with no input; oracle = every record is in a queue file under its own tag, no directory shared between tuples, one pipeline per queue with chunks is created synchronously at start-up, every queued chunk is delivered once and byte-identical, one pipeline serves one tuple, and a record sent after the restart goes through the very pipeline consumer that recovered the queue of its tuple (new tuple: a pipeline of its own); every case is non-trivial",
+		Rule: "two generations of the real agent core (run.Loader, obykeyset.Config.StartOrchestrator, real pipelines and hybrid buffers, 1-2 outputs) on one buffer root: generation 1 receives records of 1-5 key tuples (alphabet incl. '', separators, NUL, newline, invalid UTF-8; arbitrary bytes) with stalled consumers under umask 022/027/077/002/007, generation 2 starts with no input (in a third of the cases after files, directories without / with an empty / unreadable .id and a dangling link were put into the buffer roots); oracle = every record is in a queue file under its own tag, no directory shared between tuples, one pipeline per queue with chunks is created synchronously at start-up, every queued chunk is delivered once and byte-identical, one pipeline serves one tuple, and a record sent after the restart goes through the very pipeline consumer that recovered the queue of its tuple (new tuple: a pipeline of its own); every case is non-trivial",
 	})
 }
